@@ -355,7 +355,9 @@ Definition adjust_by_offset (l : loc) (offset : Z) : res loc :=
   | [] => Err E_Index
   | [p] => do q <- adj p; Ok [q]
   | p :: r =>
-    if (if lstrand l =? -1 then pe p =? lend l else ps p =? lstart l)
+    (* "if not location_bridges_origin(location): assert ..." - the first listed exon has to be the
+       outermost one only when the location does not cross the origin *)
+    if bridges l || (if lstrand l =? -1 then pe p =? lend l else ps p =? lstart l)
     then do q <- adj p; Ok (q :: r) else Err E_Assert
   end.
 
